@@ -824,6 +824,10 @@ package http2
 //@ # frames above the negotiated size are rejected before anything is allocated for them
 //@ ensures limit: r1 == nil && old(f.maxLen) != 0 ==> f.length <= old(f.maxLen)
 //@ ensures length24: r1 == nil ==> f.length >= 0 && f.length < 16777216
+//@ # the limit applies to every frame, also to one of a type this endpoint does not know and will ignore: what is skipped
+//@ # over as an extension frame was within the limit (C16, C18)
+//@ # (the path that skips a payload is the one that calls Discard a second time)
+//@ ensures unknownbounded: called((*bufio.Reader).Discard) == 2 && old(f.maxLen) != 0 ==> f.length <= old(f.maxLen)
 //@ # a body that went back to its pool is no longer reachable from the header (no second release by the caller)
 //@ ensures relnil: called(ReleaseFrame) > 0 ==> f.fr == nil
 
